@@ -5,6 +5,7 @@ HARNESSES = {
     'queue': dict(sources=['src/h_queue.cpp']),
     'disp': dict(sources=['src/h_disp.cpp']),
     'cq': dict(sources=['src/h_cq.cpp']),
+    'remover': dict(sources=['src/h_remover.cpp']),
 }
 
 
@@ -159,6 +160,24 @@ prop('C11', 'exploration',
      'to have had its listener return by t1, or to have been taken/cleared by a call begun before t1; non-trivial = an observation overlapped a processing call that was dispatching',
      SCHED_ASSUME, q, t,
      technique='property-based testing: lock-step queue model (single thread) + generated thread programs x schedules under a controlled scheduler with an interval oracle')
+
+q, t = std_stages('remover', 3000, 150000)
+prop('C15', 'exploration',
+     'rapidcheck-generated histories over a pool of 3 ScopedRemovers and 2 targets (CallbackList, EventDispatcher or EventQueue): add through a remover (append/prepend/insert), add directly, remove through a remover '
+     '(own, foreign, direct, stale handles), remove directly, reset, setCallbackList/setDispatcher, move construction, move assignment into empty and non-empty removers, swap, destruction, invocation; '
+     'oracle = ownership model (listener -> responsible remover | none | limbo after a move assignment) compared with the enumerated content after every op and after all removers are gone; '
+     'non-trivial = a move assignment between two removers that both own listeners',
+     COMMON_ASSUME + ['what the destination of a move assignment was responsible for may be detached at once or stay attached until the last remover involved is gone; the model adopts what it observes, monotonically',
+                      'remove through a remover is not generated for a listener in that limbo state or for a handle attached to a different target'],
+     q, t)
+
+q, t = std_stages('remover', 3000, 150000)
+prop('C16', 'exploration',
+     'rapidcheck-generated trigger histories on CallbackList, EventDispatcher, EventQueue (direct and queued dispatch), HeterCallbackList and HeterEventDispatcher with listeners added through counterRemover '
+     '(trigger counts INT_MIN,-5,-1,0,1,2,3,7,INT_MAX and random) and conditionalRemover (condition = bit sequence, with-argument and no-argument forms), plain listeners, removal from outside, and listener scripts '
+     'that re-trigger the same event re-entrantly; oracle = per wrapped listener trigger model on top of the nested-invocation list model; non-trivial = (count <=0 or >=2 with a re-entrant trigger, or a condition '
+     'turning true on a nested trigger) with other listeners present',
+     COMMON_ASSUME, q, t)
 
 
 _ALL = ['C%02d' % i for i in range(1, 21)]
